@@ -15,6 +15,7 @@ def sh(cmd, cwd=None, timeout=3600):
 
 def build_demo(src_dir, wt, out):
     bt = open(os.path.join(src_dir, "build.txt")).read()
+    omp = "-pthread" if re.search(r"(?i)\b(no|without) -fopenmp", bt) else "-fopenmp"       # a demo that must be built without OpenMP says so
     bt = "\n".join(l for l in bt.split("\n") if not l.lstrip().startswith("#"))      # flags named in comments are not flags
     flags = " ".join(sorted(set(re.findall(r"-D[A-Za-z_0-9=]+", bt))))
     san = "-fsanitize=address,undefined -fno-sanitize-recover=all" if "fsanitize" in bt else ""
@@ -25,8 +26,8 @@ def build_demo(src_dir, wt, out):
         cmd = "clang++-14 %s -O1 -g -fsanitize=thread %s %s -I%s/include -I%s/adept %s/demo.cpp %s/adept/*.cpp -o %s -lpthread %s" % (
             std, flags, isa, wt, wt, src_dir, wt, out, libs)
     else:
-        cmd = "g++ %s -O1 -g -fopenmp %s %s %s -I%s/include -I%s/adept %s/demo.cpp %s/adept/*.cpp -o %s %s" % (
-            std, san, flags, isa, wt, wt, src_dir, wt, out, libs)
+        cmd = "g++ %s -O1 -g %s %s %s %s -I%s/include -I%s/adept %s/demo.cpp %s/adept/*.cpp -o %s %s" % (
+            std, omp, san, flags, isa, wt, wt, src_dir, wt, out, libs)
     return sh(cmd) + (cmd,)
 
 
